@@ -716,8 +716,10 @@ pub fn protocol_case(rng: &mut Rng) -> Option<Case> {
     let inp = |t: &Type| Step { op: Operation::Input(t.clone()), deps: vec![], gdeps: vec![] };
     let st_of = |op: Operation, deps: Vec<usize>| Step { op, deps, gdeps: vec![] };
     let mut steps: Vec<Step>;
-    let kind = match rng.below(14) {
+    let kind = match rng.below(18) {
         12 | 13 => 9,
+        14 | 15 => 12,
+        16 | 17 => 13,
         k => k,
     };
     if kind == 9 {
@@ -880,6 +882,33 @@ pub fn protocol_case(rng: &mut Rng) -> Option<Case> {
                 _ => st_of(Operation::CreateVector(t.clone()), deps),
             });
         }
+        12 => {
+            // a small private operand combined with a LARGER public operand (broadcasting), then share-wise operations
+            let m = 2 + rng.below(2);
+            let big = array_type(vec![m, n], st);
+            let op = match rng.below(4) {
+                0 => Operation::Add,
+                1 | 2 => Operation::Subtract,
+                _ => Operation::Multiply,
+            };
+            let (a, b) = if rng.chance(2, 3) { (0, 1) } else { (1, 0) };
+            steps = vec![inp(&t), inp(&big), st_of(op, vec![a, b])];
+            match rng.below(4) {
+                0 => steps.push(st_of(Operation::Sum(vec![0]), vec![2])),
+                1 => steps.push(st_of(Operation::Get(vec![rng.below(m)]), vec![2])),
+                2 => steps.push(st_of(Operation::PermuteAxes(vec![1, 0]), vec![2])),
+                _ => {}
+            }
+        }
+        13 => {
+            // both operand orders of a matrix product on the same operands (commutator)
+            let mt = array_type(vec![2, 2], st);
+            let op = if rng.chance(1, 2) { Operation::Dot } else { Operation::Matmul };
+            steps = vec![inp(&mt), inp(&mt), st_of(op.clone(), vec![0, 1]), st_of(op, vec![1, 0]), st_of(Operation::Subtract, vec![2, 3])];
+            if rng.chance(1, 2) {
+                steps.push(st_of(Operation::CreateTuple, vec![2, 3]));
+            }
+        }
         _ => {
             // tuple / vector plumbing around a product
             steps = vec![inp(&t), inp(&t), st_of(Operation::Multiply, vec![0, 1]), st_of(Operation::CreateTuple, vec![2, 0]), st_of(Operation::TupleGet(0), vec![3]), st_of(Operation::Add, vec![4, 1])];
@@ -890,6 +919,11 @@ pub fn protocol_case(rng: &mut Rng) -> Option<Case> {
     prog.build().ok()?;
     let its = prog.input_types();
     let mut owners = gen_owners(its.len(), rng);
+    if kind == 12 {
+        // the small operand is private, the large one public
+        owners[0] = *rng.pick(&[Owner::Party(0), Owner::Party(1), Owner::Party(2), Owner::Shared]);
+        owners[1] = Owner::Public;
+    }
     if kind == 11 {
         for (i, o) in owners.iter_mut().enumerate() {
             *o = if i < 1 + rng.usize_below(2) { Owner::Party(rng.below(3) as u8) } else if rng.chance(2, 3) { Owner::Public } else { *o };
